@@ -104,3 +104,18 @@ package server
 //@   prop C11
 //@   structural
 
+
+// SetReadOnly / SetFullWrite (C02): the server has three write modes - normal (committed versions are
+// immutable), read-only, and full-write (the documented exception to immutability). Leaving read-only
+// mode must not enter full-write mode, and leaving full-write mode must not enter read-only mode.
+//@ func SetReadOnly
+//@   prop C02
+//@   modifies *
+//@   ensures readonly == on
+//@   ensures fullwrite ==> old(fullwrite) && !on
+
+//@ func SetFullWrite
+//@   prop C02
+//@   modifies *
+//@   ensures fullwrite == on
+//@   ensures readonly ==> old(readonly) && !on
